@@ -99,6 +99,15 @@ def instances(tier, seed):
     sv.cons = [Con('<=', E('xg', 0) * E('xg', 0), 1, grid='inf'), Con('==', at_t0(X(0)), 0), Con('==', at_t0(X(1)), 0)]
     for method, intg in (('MS', 'rk'), ('DC', None)):
         add(kind='sufficiency', spec=fam.with_horizon(sv, hz[1]), cfg=Cfg(method, N=2, M=1, intg=intg or 'rk', grid=fam.G_UNI, degree=4, scheme='radau'), reject_ok=True, twin=False)
+    # quantities that are NOT available as step polynomials (quadrature states, algebraic variables): rejected, or certified
+    from ..dsl import Q, Z
+    sq = Spec(nx=2, nu=1, ode=[X(1), U(0)], note='inf constraint on a quadrature state')
+    sq.quads = [X(0)]
+    sq.cons = [Con('<=', Q(0), Fr(3, 10), grid='inf'), Con('==', at_t0(X(0)), Fr(1, 10))]
+    add(kind='sufficiency', spec=fam.with_horizon(sq, hz[1]), cfg=Cfg('MS', N=2, M=1, intg='rk', grid=fam.G_UNI, degree=4, scheme='radau'), reject_ok=True, twin=False)
+    sz = Spec(nx=1, nu=1, nz=1, ode=[U(0) + Z(0)], alg=[Z(0) - X(0) * 2], note='inf constraint on an algebraic variable')
+    sz.cons = [Con('<=', Z(0), Fr(3, 10), grid='inf'), Con('==', at_t0(X(0)), Fr(1, 10))]
+    add(kind='sufficiency', spec=fam.with_horizon(sz, hz[0]), cfg=Cfg('DC', N=2, M=1, grid=fam.G_UNI, degree=4, scheme='radau'), reject_ok=True, twin=False)
     # rejection of bodies without a certificate
     for method in ('MS', 'DC'):
         s = Spec(nx=1, nu=1, ode=[U(0)], note='non-polynomial inf body')
